@@ -26,7 +26,7 @@ contract(V + "Field.validate", props=["C14"], types={"input": "Any"}, returns="n
 contract(V + "_MessageSerializer.serialize", props=["C13"], types={"message": "dict"}, returns="none",
          ghosts={"NEWC": "seqe"}, ghost_defaults={"NEWC": "empty_log()"},
          after={"Field.serialize#0": [("NEWC", "NEWC + [Ev('ret', self._serializer, input, None, result)]")]},
-         requires=[("message-is-not-the-field-table", "ref(message) != ref(self.fields)")],
+         assumes=[("E12 ownership (ownership_check.py): the field table never escapes, so it is not the message dictionary", "ref(message) != ref(self.fields)")],
          modifies=["dict(message)", "#CALLS", "#NTOP"],
          loops={0: {"locals": {"NEWC": "seqe"}, "modifies": ["dict(message)", "#CALLS", "#NTOP"],
                     "inv": [("one-serializer-call-per-processed-field", "CALLS == old(CALLS) + NEWC and len(NEWC) == _i and all_tag(NEWC, 'ret')"),
